@@ -711,6 +711,388 @@ def search_shape(ctx, cases):
 
 
 # ----------------------------------------------------------------------------------------------
+# fonts whose FeatureList holds SEVERAL records with one tag (one per language system, shared ones, records no
+# language system lists), as pan-CJK fonts do for 'vert' / 'locl'; every direction; the features each direction enables
+
+# tag -> who enables it (ot_shape.rs collect_features, common part run for every shaper):
+#   "all" every direction, "h" horizontal, "v" vertical, "l"/"r" that direction, "never"; rtlm is not global: it is applied
+#   to every character of a backward run that was not replaced by its mirror image through cmap — all of the probe text
+MULTI_GSUB = ["vert", "ccmp", "locl", "ltra", "ltrm", "rtla", "rtlm", "clig", "zzz0", "rqd0"]
+MULTI_GPOS = ["vert", "abvm", "mark", "dist", "zzz0", "rqd0"]
+MULTI_TAGS = {0: MULTI_GSUB, 1: MULTI_GPOS}
+ENABLED = {"vert": "v", "ccmp": "all", "locl": "all", "abvm": "all", "mark": "all", "ltra": "l", "ltrm": "l", "rtla": "r",
+           "rtlm": "r", "clig": "h", "dist": "h", "zzz0": "never"}
+SHAPER_INDEPENDENT = {"vert", "ccmp", "locl", "abvm", "mark", "ltra", "ltrm", "rtla", "rtlm", "zzz0"}
+DEFAULT_SHAPER_SCRIPTS = {"Latn", "Cyrl", "Hira", "Hani", "Zzzz"}     # hb_ot_shape_complex_categorize: default shaper
+MULTI_SCRIPTS = ["Hani", "Hira", "Latn", "Cyrl", "Zzzz", "Deva", "Arab", "Mymr", "Thai", "Khmr", "Hang", "Taml"]
+MULTI_LANGS = ["-", "ja", "ko", "zh-Hans", "zh-Hant-HK", "en", "mr", "x-hbotabcd", "xyz"]
+G_GSUB0 = 1                                        # GSUB probe of MULTI_GSUB[k] = G_GSUB0 + k
+G_GPOS0 = G_GSUB0 + len(MULTI_GSUB)                # GPOS probe of MULTI_GPOS[k] = G_GPOS0 + k
+G_REF = G_GPOS0 + len(MULTI_GPOS)                  # never touched: the reference for offsets
+G_NAME0 = G_REF + 1                                # naming glyph of GSUB feature i = G_NAME0 + i
+DIRS = "lrtb"
+
+
+def enabled_in(tag, d, default_shaper):
+    """True / False / None (= depends on the shaper, not checked)"""
+    e = ENABLED[tag]
+    if e == "all":
+        return True
+    if e == "never":
+        return False
+    if e in ("l", "r"):
+        return d == e
+    if e == "v":
+        return d in "tb"
+    if e == "h":
+        # shapers add some of the horizontal features on their own in every direction (Arabic: clig, Indic: dist)
+        return (d in "lr") if default_shaper else (True if d in "lr" else None)
+    raise ValueError(e)
+
+
+def rand_table_multi(r, table, script_tags, lang_universe, small=False):
+    """abstract table in the format of rand_table; feature records are created per language system, so tags repeat.
+    small: two or three tags only ('vert' always among them) — short fonts for readable replays"""
+    pool = [t for t in MULTI_TAGS[table] if t != "rqd0"]
+    if small:
+        pool = ["vert"] + r.sample([t for t in pool if t != "vert"], r.range(1, 2))
+    recs = []                                      # tag of record i (creation order)
+    by_tag = {}
+    def new(tag):
+        recs.append(tag); by_tag.setdefault(tag, []).append(len(recs) - 1)
+        return len(recs) - 1
+    def langsys(tag):
+        ls = {"tag": tag, "req": None, "feats": []}
+        for t in pool:
+            k = r.below(20)
+            if k < 10:
+                ls["feats"].append(new(t))                       # its own record
+            elif k < 13 and by_tag.get(t):
+                ls["feats"].append(r.choice(by_tag[t]))          # a record shared with another language system
+            elif k < 14:
+                a = new(t); b = new(t)                           # two records of one tag in one language system
+                ls["feats"] += r.shuffle([a, b])
+            if r.chance(1, 5):
+                new(t)                                           # a record no language system lists
+        if r.chance(1, 3):
+            ls["feats"] = r.shuffle(ls["feats"])
+        if r.chance(1, 8 if small else 4):
+            ls["req"] = new("rqd0")
+        return ls
+    scripts = []
+    for st in script_tags:
+        sc = {"tag": st, "dflt": None, "langs": []}
+        if r.chance(3, 4):
+            sc["dflt"] = langsys(tg("dflt"))
+        for lt in lang_universe:
+            if r.chance(1, 3 if small else 2):
+                sc["langs"].append(langsys(lt))
+        sc["langs"].sort(key=lambda l: l["tag"])
+        scripts.append(sc)
+    scripts.sort(key=lambda x: x["tag"])
+    # the FeatureList: "listed alphabetically by feature tag" (stable, so creation order inside a tag) — or as created
+    order = list(range(len(recs)))
+    sorted_list = not r.chance(1, 5)
+    if sorted_list:
+        order.sort(key=lambda i: tg(recs[i]))
+    elif r.chance(1, 2):
+        order = r.shuffle(order)
+    pos = {old: new_ for new_, old in enumerate(order)}
+    for sc in scripts:
+        for ls in ([sc["dflt"]] if sc["dflt"] else []) + sc["langs"]:
+            ls["feats"] = [pos[i] for i in ls["feats"]]
+            if ls["req"] is not None:
+                ls["req"] = pos[ls["req"]]
+    feats = [recs[i] for i in order]
+    return {"scripts": scripts, "feats": feats, "sorted": all(tg(a) <= tg(b) for a, b in zip(feats, feats[1:]))}
+
+
+def recipe_multi(gsub, gpos):
+    n = G_NAME0 + (len(gsub["feats"]) if gsub else 0) + 1
+    rec = {"num_glyphs": n, "cmap": "pua"}
+    def conv(tb, table):
+        def ls(l):
+            return {"tag": untag(l["tag"]), "required": l["req"], "features": list(l["feats"])}
+        out = {"raw": True, "scripts": [], "features": [], "lookups": []}
+        for sc in tb["scripts"]:
+            out["scripts"].append({"tag": untag(sc["tag"]), "default": None if sc["dflt"] is None else ls(sc["dflt"]),
+                                   "langs": [ls(l) for l in sc["langs"]]})
+        for i, ft in enumerate(tb["feats"]):
+            out["features"].append({"tag": ft, "lookups": [i]})
+            k = MULTI_TAGS[table].index(ft)
+            if table == 0:
+                out["lookups"].append({"type": 1, "subtables": [{"format": 2, "coverage": [G_GSUB0 + k], "subst": [G_NAME0 + i]}]})
+            else:
+                out["lookups"].append({"type": 1, "subtables": [{"format": 1, "coverage": [G_GPOS0 + k],
+                                                                 "value": {"xPlacement": 10 + i}}]})
+        return out
+    if gsub is not None:
+        rec["gsub"] = conv(gsub, 0)
+    if gpos is not None:
+        rec["gpos"] = conv(gpos, 1)
+    return rec
+
+
+MULTI_TEXT = ",".join(f"{0xE000 + g - 1:x}:{g}" for g in range(G_GSUB0, G_REF + 1))     # cluster = glyph id of the probe
+
+
+def selected_sys(tb, sel):
+    if tb is None or sel is None:
+        return None
+    si, li, _ = sel
+    sc = tb["scripts"][si]
+    return sc["dflt"] if li is None else sc["langs"][li]
+
+
+def expected_multi(gsub, gpos, sel, d, default_shaper):
+    """(table, tag) -> index of the feature record shape() must apply | None (none) | "?" (not checked).
+    From the OpenType / HarfBuzz rule, not from the crate: the record the SELECTED language system lists under the tag
+    (first listed); only 'vert', only when no table's language system lists it: the first 'vert' of the FeatureList."""
+    tbs = (gsub, gpos)
+    exp = {}
+    for table in (0, 1):
+        for tag in MULTI_TAGS[table]:
+            exp[(table, tag)] = None
+    for tag in sorted(set(MULTI_GSUB + MULTI_GPOS)):
+        if tag == "rqd0":
+            for table in (0, 1):
+                tb = tbs[table]
+                if tb is not None and sel[table] is not None and sel[table][2] is not None and sel[table][2] < len(tb["feats"]):
+                    exp[(table, tag)] = sel[table][2]
+            continue
+        en = enabled_in(tag, d, default_shaper)
+        if en is None:
+            for table in (0, 1):
+                if tag in MULTI_TAGS[table]:
+                    exp[(table, tag)] = "?"
+            continue
+        if not en:
+            continue
+        listed = {}
+        for table in (0, 1):
+            sys = selected_sys(tbs[table], sel[table])
+            listed[table] = None
+            if sys is not None:
+                for fi in sys["feats"]:
+                    if fi < len(tbs[table]["feats"]) and tbs[table]["feats"][fi] == tag:
+                        listed[table] = fi; break
+        if tag == "vert" and listed[0] is None and listed[1] is None:
+            for table in (0, 1):
+                tb = tbs[table]
+                if tb is not None and tag in tb["feats"]:
+                    # an unsorted FeatureList breaks the table's contract ("listed alphabetically by feature tag"; the
+                    # crate binary searches it, HarfBuzz scans it): some 'vert' record or none, not checked
+                    listed[table] = tb["feats"].index(tag) if tb["sorted"] else "?"
+        for table in (0, 1):
+            if tag in MULTI_TAGS[table]:
+                exp[(table, tag)] = listed[table]
+    return exp
+
+
+def observed_multi(reply, gsub, gpos):
+    """shape reply -> (table, tag) -> applied record index | None ; or a string describing a malformed reply"""
+    m = reply.split()
+    if len(m) < 2 or m[0] != "ok":
+        return "no output: " + reply[:80]
+    by_cluster = {}
+    for x in m[2:]:
+        f = x.split(":")
+        by_cluster.setdefault(int(f[1]), []).append((int(f[0]), int(f[5])))
+    if sorted(by_cluster) != list(range(G_GSUB0, G_REF + 1)) or any(len(v) != 1 for v in by_cluster.values()):
+        return "glyph count / clusters changed"
+    ref_gid, ref_xo = by_cluster[G_REF][0]
+    if ref_gid != G_REF:
+        return "reference glyph substituted"
+    got = {}
+    for k, tag in enumerate(MULTI_GSUB):
+        gid, xo = by_cluster[G_GSUB0 + k][0]
+        if gid == G_GSUB0 + k:
+            got[(0, tag)] = None
+        else:
+            i = gid - G_NAME0
+            if gsub is None or not (0 <= i < len(gsub["feats"])) or gsub["feats"][i] != tag:
+                return f"GSUB probe of '{tag}' became glyph {gid}"
+            got[(0, tag)] = i
+        if xo != ref_xo:
+            return f"GSUB probe of '{tag}' was moved"
+    for k, tag in enumerate(MULTI_GPOS):
+        gid, xo = by_cluster[G_GPOS0 + k][0]
+        if gid != G_GPOS0 + k:
+            return f"GPOS probe of '{tag}' was substituted"
+        if xo == ref_xo:
+            got[(1, tag)] = None
+        else:
+            i = xo - ref_xo - 10
+            if gpos is None or not (0 <= i < len(gpos["feats"])) or gpos["feats"][i] != tag:
+                return f"GPOS probe of '{tag}' moved by {xo - ref_xo}"
+            got[(1, tag)] = i
+    return got
+
+
+def multi_cases(ctx, r, shim):
+    import fontbuild
+    tl = tag_lists(shim, MULTI_SCRIPTS, MULTI_LANGS)
+    cases = []
+    for n in range(ctx.budget(1600, 40000)):
+        s = r.choice(MULTI_SCRIPTS); l = r.choice(MULTI_LANGS)
+        st, lt = tl[(s, l)]
+        small = r.chance(1, 2)
+        universe = list(dict.fromkeys(tl[(s, "-")][0] + [tg("DFLT"), tg("latn")]))
+        if small:
+            universe = universe[:1] + [tg("DFLT")]
+        present = [t for t in universe if r.chance(1, 2)] or [r.choice(universe)]
+        lang_universe = list(dict.fromkeys(lt + [tg("JAN "), tg("KOR "), tg("ZHS "), tg("AAA ")]))
+        if small:
+            lang_universe = lang_universe[:3]
+        gsub = rand_table_multi(r, 0, present, lang_universe, small)
+        gpos = (rand_table_multi(r, 1, [t for t in universe if r.chance(1, 2)], lang_universe, small)
+                if r.chance(1, 4 if small else 2) else None)
+        if r.chance(1, 12):
+            gsub, gpos = None, rand_table_multi(r, 1, present, lang_universe, small)
+        c = {"gsub": gsub, "gpos": gpos, "script": s, "lang": l, "st": st, "lt": lt, "kind": "multi",
+             "dir": DIRS[n % 4]}
+        c["hex"] = fontbuild.build(recipe_multi(gsub, gpos)).hex()
+        c["abs"] = abstract(gsub) + "/" + abstract(gpos)
+        cases.append(c)
+    return cases
+
+
+def multi_check(c, plan_line, reply):
+    """-> (expected, observed, list of differing (table, tag)) ; expected None when the model gave no selection"""
+    f = plan_line.split()
+    if len(f) != 3 or plan_line.startswith("panic"):
+        return None, None, []
+    sel = [parse_sel(f[1]), parse_sel(f[2])]
+    exp = expected_multi(c["gsub"], c["gpos"], sel, c["dir"], c["script"] in DEFAULT_SHAPER_SCRIPTS)
+    got = observed_multi(reply, c["gsub"], c["gpos"])
+    if isinstance(got, str):
+        return exp, got, ["malformed"]
+    diff = []
+    for k in sorted(exp):
+        e = exp[k]
+        if e == "?":
+            continue
+        if got[k] != e:
+            diff.append(k)
+    return exp, got, diff
+
+
+def show_multi(m):
+    if not isinstance(m, dict):
+        return str(m)
+    return " ".join(f"{'GSUB' if t == 0 else 'GPOS'}.{tag}={'-' if v is None else v}" for (t, tag), v in sorted(m.items())
+                    if v is not None)
+
+
+def stream_resolve(ctx, r, cases, mcases):
+    """tag-select correspondence, continued: find_language_feature on the multi-record fonts, and the feature indices
+    of the compiled plan (ShapePlan::new, all four directions) against Tag.planFeatures = Map's compiler over the
+    records Tag selects"""
+    lines, kind = [], {}
+    for c in mcases:
+        tb = c["gsub"] if c["gsub"] is not None else c["gpos"]
+        t = 0 if c["gsub"] is not None else 1
+        if tb["scripts"]:
+            for _ in range(2):
+                si = r.below(len(tb["scripts"]))
+                nl = len(tb["scripts"][si]["langs"])
+                li = "-" if (nl == 0 or r.chance(1, 3)) else str(r.below(nl))
+                ln = f"tagfeat {c['hex']} {c['abs']} {t} {si} {li} {tg(r.choice(MULTI_TAGS[t]))}"
+                lines.append(ln); kind[ln] = "multi"
+    every = sorted(set(MULTI_GSUB + MULTI_GPOS + ["ccmp", "dist", "zzz0", "rqd0", "rqd1", "liga", "kern", "rvrn", "frac", "none"]))
+    for c in mcases + [c for c in cases if c["kind"] == "sorted"]:
+        multi = c["kind"] == "multi"
+        d = DIRS.index(c["dir"]) if multi else r.below(4)
+        # the model knows the feature list of a shaper without features of its own; under the other shapers only the
+        # tags every shaper leaves as ot_shape.rs registers them
+        default = c["script"] in DEFAULT_SHAPER_SCRIPTS
+        tags = every if default else sorted(SHAPER_INDEPENDENT)
+        ln = (f"tagresolve {c['hex']} {c['abs']} {d} {tg(c['script'])} {'-' if c['lang'] == '-' else hx(c['lang'])} "
+              + ",".join(str(tg(t)) for t in tags))
+        lines.append(ln); kind[ln] = ("multi" if multi else "single") + ":" + ("default-shaper" if default else "other-shaper")
+
+    vert = tg("vert")
+    def classify(ln, out):
+        t = ln.split()
+        ks = [t[0], t[0] + ":" + kind[ln]]
+        if t[0] == "tagfeat":
+            ks.append("tagfeat:" + ("found" if out not in ("-", "notable") else out))
+        if t[0] == "tagresolve" and not out.startswith("panic"):
+            ks.append("tagresolve:dir" + t[3])
+            tags = t[6].split(",")
+            o = out.split()
+            if len(o) == len(tags):
+                n = sum(1 for x in o if x not in ("x", "-/-"))
+                ks.append("tagresolve:resolved" + (str(n) if n < 4 else "4+"))
+                if str(vert) in tags:
+                    ks.append("tagresolve:vert=" + ("x" if o[tags.index(str(vert))] == "x" else "index"))
+        return ks
+    return ctx.correspond("tag-select", lines=lines, classify=classify, canon=canon)
+
+
+def search_resolve_shape(ctx, cases):
+    """end to end over the multi-record fonts, all four directions: per tag, shape() applies the record the selected
+    language system lists; a record it does not list only for 'vert' when no language system lists one"""
+    shim = vlib.build_harness()
+    model = vlib.build_model()
+    plan_lines = [f"tagplan {c['hex']} {c['abs']} {DIRS.index(c['dir'])} {tg(c['script'])} {'-' if c['lang'] == '-' else hx(c['lang'])}"
+                  for c in cases]
+    plans = vlib.run_lines(model, plan_lines)
+    groups = []
+    for i, c in enumerate(cases):
+        lang = "-" if c["lang"] == "-" else hx(c["lang"])
+        groups.append([f"font m{i} {c['hex']}", f"shape m{i} {c['dir']} {c['script']} {lang} 0 0 - - - {MULTI_TEXT}", f"fontdrop m{i}"])
+    outs = vlib.run_groups(shim, groups)
+    dist = {}
+    bad = 0
+    nontriv = 0
+    failing = []
+    def bump(k):
+        dist[k] = dist.get(k, 0) + 1
+    for c, p, o in zip(cases, plans, outs):
+        exp, got, diff = multi_check(c, p, o[1])
+        if exp is None:
+            bump("no-selection"); continue
+        bump("dir:" + c["dir"])
+        vert = [exp[(t, "vert")] for t in (0, 1)]
+        if c["dir"] in "tb":
+            sel = [parse_sel(x) for x in p.split()[1:]]
+            sysl = [selected_sys(tb, s_) for tb, s_ in zip((c["gsub"], c["gpos"]), sel)]
+            listed = any(sy is not None and any(fi < len(tb["feats"]) and tb["feats"][fi] == "vert" for fi in sy["feats"])
+                         for tb, sy in zip((c["gsub"], c["gpos"]), sysl) if tb is not None)
+            nrec = sum(tb["feats"].count("vert") for tb in (c["gsub"], c["gpos"]) if tb is not None)
+            bump("vert:" + ("listed" if listed else ("global" if any(v is not None for v in vert) else "absent"))
+                 + (":several-records" if nrec > 1 else ""))
+        if any(v not in (None, "?") for v in exp.values()):
+            nontriv += 1
+        if diff:
+            bad += 1
+            failing.append((len(c["hex"]), len(failing), c, p, o, exp, got, diff))
+    # the smallest failing fonts are reported
+    for _, _, c, p, o, exp, got, diff in sorted(failing, key=lambda x: x[:2])[:3]:
+        what = ", ".join(f"{'GSUB' if k[0] == 0 else 'GPOS'} '{k[1]}': expected record {exp[k]}, applied {got[k] if isinstance(got, dict) else got}"
+                         for k in diff if k != "malformed") or str(got)
+        ctx.violation(f"shape() does not apply the feature records of the selected language system: script {c['script']} "
+                      f"language {c['lang']} direction {c['dir']}: {what}",
+                      {"stage": "search", "stream": "resolve-shape", "font_hex": c["hex"], "abstract": c["abs"],
+                       "script": c["script"], "lang": c["lang"], "dir": c["dir"], "model_selection": p,
+                       "feature_list": {"gsub": c["gsub"]["feats"] if c["gsub"] else None,
+                                        "gpos": c["gpos"]["feats"] if c["gpos"] else None},
+                       "sorted": [c["gsub"]["sorted"] if c["gsub"] else None, c["gpos"]["sorted"] if c["gpos"] else None],
+                       "expected": show_multi(exp), "observed_records": show_multi(got),
+                       "differs": [list(k) if k != "malformed" else k for k in diff], "observed": o[1]})
+    ctx.note_search("resolve-shape", len(cases), nontriv, distribution=dist, mismatches=bad,
+                    rule="synthetic fonts whose FeatureList holds several records per tag (one per language system, shared "
+                         "records, two of one tag in one language system, records no language system lists; sorted by tag, "
+                         "1/5 unsorted), each record substituting (GSUB) / moving (GPOS) the probe glyph of its tag in a way that "
+                         "names the record; shape() in the four directions under 12 scripts x 9 languages; per tag that the "
+                         "direction enables the applied record must be the first one the selected language system lists, for "
+                         "'vert' (vertical) the first record of the FeatureList when no table's language system lists one, "
+                         "nothing for tags the direction does not enable; the required feature always; non-trivial = some "
+                         "record expected")
+
+
+# ----------------------------------------------------------------------------------------------
 
 def run(ctx):
     ctx.assumptions += [
@@ -721,6 +1103,11 @@ def run(ctx):
         "hand-checked pairs of C18_wellknown",
         "Rust's str::find / starts_with / match_indices / binary_search_by are modelled (first match, non-overlapping "
         "matches, the rustc 1.95 loop), ttf-parser's record lists are abstract lists of records",
+        "feature-record resolution: Tag.planFeatures = C14's model of collect_feature_maps (Map.lean) over the records "
+        "Tag.lean selects; the feature list of the plan is the one of a shaper without features of its own "
+        "(Map.planBuilder), so under the other shapers the tagresolve stream compares only the tags every shaper leaves as "
+        "ot_shape.rs registers them; FeatureLists that are not sorted by tag are outside the global-search oracle of "
+        "resolve-shape (the crate binary searches them, HarfBuzz scans them)",
     ]
     ctx.regen()
     ctx.prove(MODULE)
@@ -731,13 +1118,16 @@ def run(ctx):
     stream_tags(ctx, ctx.rng("tags"), rows, pre, branch, scripts)
     stream_prims(ctx, ctx.rng("prims"), rows, pre, branch, scripts)
     cases = select_cases(ctx, ctx.rng("select-fonts"), shim)
+    mcases = multi_cases(ctx, ctx.rng("multi-fonts"), shim)
     stream_select(ctx, ctx.rng("select"), cases)
+    stream_resolve(ctx, ctx.rng("resolve"), cases, mcases)
     search_registry(ctx, shim, rows)
     search_wellknown(ctx, shim)
     search_bcp47(ctx, shim, rows)
     search_script_tags(ctx, shim, scripts)
     search_total(ctx, shim, ctx.rng("total"), rows, branch, ctx.budget(4000, 300000))
     search_shape(ctx, cases)
+    search_resolve_shape(ctx, mcases)
 
 
 def replay(ctx, rp):
@@ -752,6 +1142,30 @@ def replay(ctx, rp):
         g = [x.split(":") for x in m[2:]]
         got = {"A": int(g[0][0]), "B": int(g[1][0]), "C": int(g[2][3]), "D": int(g[3][3])}
         return 0 if got == rp["expected"] else 1
+    if rp.get("stream") == "resolve-shape":
+        lang = "-" if rp["lang"] == "-" else hx(rp["lang"])
+        o = vlib.run_groups(shim, [[f"font f {rp['font_hex']}", f"shape f {rp['dir']} {rp['script']} {lang} 0 0 - - - {MULTI_TEXT}"]], nproc=1)[0]
+        fl = rp["feature_list"]
+        tb = [None if fl[k] is None else {"feats": fl[k]} for k in ("gsub", "gpos")]
+        got = observed_multi(o[1], tb[0], tb[1])
+        print("impl    :", o[1])
+        print("applied :", show_multi(got))
+        print("expected:", rp["expected"], "(selection by the model:", rp["model_selection"], ")")
+        if not isinstance(got, dict):
+            return 1
+        # the records named in `expected` and nothing else, except where the oracle does not decide ('?')
+        exp = {}
+        for item in rp["expected"].split():
+            k, v = item.split("=")
+            exp[k] = v
+        for (t, tag), v in got.items():
+            k = f"{'GSUB' if t == 0 else 'GPOS'}.{tag}"
+            e = exp.get(k)
+            if e == "?":
+                continue
+            if (e is None) != (v is None) or (e is not None and int(e) != v):
+                return 1
+        return 0
     if "request" in rp:
         a = vlib.run_lines(shim, [rp["request"]], nproc=1)[0]
         print("impl :", a)
